@@ -5,8 +5,8 @@ from ..core import Script, hx
 ID = "C17"
 SUITES = ["beacon"]
 LEAN_MODULES = ["VpnCloud.Proofs.C17", "VpnCloud.Proofs.C17More"]
-THEOREMS = ["VpnCloud.Proofs.C17." + n for n in ("mask_length", "mask_involutive", "mask_wf", "encrypt_decrypt", "age_window", "peerlist_roundtrip_partial", "too_old_ignored", "findSub_sound", "findSub_none", "decode_clean")]
-THEOREMS = THEOREMS + ["VpnCloud.Proofs.C17More." + n for n in ('decode_never_panics', 'embedded_found', 'embedded_found_unbordered', 'several_beacons', 'several_beacons_unbordered', 'extracted_needs_markers', 'foreign_seed_check', 'other_password_ignored', 'age_symmetric', 'too_old', 'too_new', 'too_old_wrapped', 'wrap_instances', 'beacon_age', 'no_ttl_accepts_all', 'sanitize_interleave')]
+THEOREMS = ["VpnCloud.Proofs.C17." + n for n in ("mask_length", "mask_involutive", "mask_wf", "encrypt_decrypt", "age_window", "peerlist_roundtrip_partial", "too_old_ignored", "findSub_sound", "findSub_none", "decode_clean", "keystream_period", "long_body_roundtrip", "long_body_roundtrip_beyond")]
+THEOREMS = THEOREMS + ["VpnCloud.Proofs.C17More." + n for n in ('decode_never_panics', 'embedded_found', 'embedded_found_unbordered', 'several_beacons', 'several_beacons_unbordered', 'extracted_needs_markers', 'foreign_seed_check', 'other_password_ignored', 'age_symmetric', 'too_old', 'too_new', 'too_old_wrapped', 'wrap_instances', 'beacon_age', 'no_ttl_accepts_all', 'sanitize_interleave', 'mask_never_panics', 'old_counter_overflows', 'overflow_text_exists_old')]
 BATCH = 100
 SEARCH_BUDGET_S = 300
 RULE = ("suite beacon: brt = encode at one hour, embed in host text (random alphanumerics and punctuation before / behind, separators interleaved in 4 modes), "
@@ -174,6 +174,15 @@ def gen(tier, rng):
         ops.append("bdec %s %d %s %s" % (hx(pw), hour + rng.choice([0, 0, 1, 30]), rng.choice(["-", "24", "0"]), hx(text.encode())))
     for pw in pws[:40]:
         ops.append("benc %s %d %s" % (hx(pw), rng.below(10 ** 6), ",".join(rand_socks(rng, rng.below(5), rng.below(3))) or "-"))
+    # long candidate bodies (more than 256 keystream blocks = 4096 bytes: the block counter of the mask loop wraps) and long peer lists
+    for n in ([100, 4000, 5400, 5600, 6000, 9000, 20000] if thorough else [5400, 5600, 9000]):
+        pw = rng.choice(pws[:6])
+        b, e = markers(pw)
+        ops.append("bdec %s %d - %s" % (hx(pw), rng.below(65536), hx((rand_text(rng, 7) + b + rand_text(rng, n, True) + e + rand_text(rng, 5)).encode())))
+    for (n4, n6) in ([(0, 230), (200, 120), (250, 0)] if thorough else [(0, 230), (40, 215)]):
+        pw = rng.choice(pws[:6])
+        hour = 2003 + rng.below(50)
+        ops.append("brt %s %s %d %d - %s %s %d %s" % (hx(pw), hx(pw), hour, hour, ",".join(rand_socks(rng, n4, n6)), hx(rand_text(rng, 9).encode()), rng.below(4), "-"))
     rng.shuffle(ops)
     for i in range(0, len(ops), 100):
         yield Script("beacon-%d" % (i // 100), ops[i:i + 100], {"suite": "beacon"})
